@@ -26,8 +26,8 @@ Parameter / regime coverage added by the audit of the signatures:
   max(1, .) keeps a rank - for svd, svd_matrix, matrix_skeleton (rel False / True) and matrix_svd, with and without cap;
 * exactly-zero arrays / matrices (kind 'zero', absolute accuracies): finite well-formed result of rank 1, zero error;
 * memory layout of the input array / matrix (param `layout`: 'F' Fortran order, 'V' strided view, 'R' negative strides);
-* mode sizes 300 .. 1025 (thorough 2048), many modes d = 7 .. 12 (thorough 15), alternating modes of size 1;
-* long / wide / larger matrices 600x4, 3x700, 1x300, 40x40 (thorough 2x2048, 120x90).
+* mode sizes 300 .. 1025 (thorough 2048), many modes d = 6 .. 10 (thorough 11), alternating modes of size 1;
+* long / wide / larger matrices 600x4, 3x700, 1x300, 30x30 (thorough 2x2048, 28x90).
 Not covered on purpose: full_matrix(order='C') - the parameter is undocumented and the property fixes only the
 inverse of svd_matrix's interleaving (order 'F').
 """
@@ -43,7 +43,7 @@ BOUNDS = ('svd: d in {2,3,4} (thorough 5), modes 1..5, 13 magnitudes 1e-6..1e6, 
           'and (1 +- 1e-6) x every unfolding tail, caps {1e12,1,2,3,2.7}; svd_matrix/full_matrix q <= 5 (thorough 8) '
           'on integer-coded matrices; matrix factorisations: shapes 1x1 .. 7x5, 8 spectra, scales 1e-6..1e6, '
           'all give_to x rel x hermitian, thresholds at every tail; e >= ||A||, zero arrays / matrices, input layouts F / '
-          'strided / negative strides, modes up to 1025 (thorough 2048), d up to 12 (thorough 15), matrices up to 600x4 / 3x700')
+          'strided / negative strides, modes up to 1025 (thorough 2048), d up to 10 (thorough 11), matrices up to 600x4 / 3x700 / 30x30')
 
 EPS = np.finfo(float).eps
 MAGS = [10.0 ** k for k in range(-6, 7)]
@@ -542,6 +542,8 @@ def cases(tier, seed):
             for mag in (MAGS if big else MAGS[(ni + ki) % 5::5]):
                 base = dict(n=n, seed=100 + ni, kind=kind, mag=mag, via='svd')
                 for ei, e in enumerate((['rel', 1.0 + 1e-9], ['rel', 1.5], ['abs', 1e30])):
+                    if not big and (ni + ki + ei) % 3 == 0:
+                        continue
                     for cap in ((1e12, 2) if big else ((1e12, 2)[(ni + ki + ei) % 2],)):
                         for cid in SVD4:
                             yield cid, dict(base, e=e, cap=cap)
@@ -555,11 +557,15 @@ def cases(tier, seed):
                 for cid in SVD4:
                     yield cid, dict(n=n, seed=0, kind='zero', mag=1.0, via='svd', e=e, cap=cap)
     # large mode sizes and many modes
-    wide = [[520, 3], [2, 300, 2], [1, 1025], [2] * 12, [3] * 7, [2, 1, 2, 1, 2, 1, 2, 1, 2]]
+    # (every unfolding keeps min(rows, cols) <= 32: larger factorisations switch the BLAS to threads, which stalls the
+    # 16-process pool of the runner)
+    wide = [[520, 3], [2, 300, 2], [1, 1025], [2] * 10, [3] * 6, [2, 1, 2, 1, 2, 1, 2, 1, 2]]
     if big:
-        wide += [[3, 2048], [2] * 15, [4] * 6, [70, 3, 70]]
+        wide += [[3, 2048], [2] * 11, [4] * 5, [30, 3, 10], [2, 1] * 5 + [2]]
     for ni, n in enumerate(wide):
         for ki, kind in enumerate(kinds):
+            if not big and (ni + ki) % 2:
+                continue
             for mag in (MAGS[::2] if big else MAGS[(ni + ki) % 6::6]):
                 base = dict(n=n, seed=200 + ni, kind=kind, mag=mag, via='svd')
                 for e in (['rel', 0.3], ['rel', 1e-3], ['rel', 1.5], ['abs', 1e-10]):
@@ -645,16 +651,18 @@ def cases(tier, seed):
     # e >= the whole matrix (floor max(1, .)), zero matrices, memory layouts, long / wide matrices
     MSK = ('C03.matrix_skeleton.rank_selection', 'C03.matrix_skeleton.best_approx', 'C03.matrix_skeleton.give_to')
     MSV = ('C03.matrix_svd.rank_selection', 'C03.matrix_svd.best_approx', 'C03.matrix_svd.right_orthonormal')
-    for (m, n) in mshapes + [(600, 4), (3, 700), (1, 300), (40, 40)] + ([(2, 2048), (120, 90)] if big else []):
+    for (m, n) in mshapes + [(600, 4), (3, 700), (1, 300), (30, 30)] + ([(2, 2048), (28, 90)] if big else []):
         for ki, kind in enumerate(mkinds):
-            if max(m, n) > 10 and kind.startswith('spec:') and kind not in ('spec:geom', 'spec:zeros'):
+            if max(m, n) > 10 and (kind.startswith('spec:') and kind not in ('spec:geom', 'spec:zeros') or (not big and (ki + m) % 2)):
                 continue
-            for scale in scales:
+            for scale in (scales if big else (scales[(m + n + ki) % len(scales)], scales[(m + n + ki + 1) % len(scales)])):
                 j += 1
                 es = [['rel', 1.0 + 1e-9], ['rel', 2.0], ['abs', 1e30]]
                 if max(m, n) > 10:
                     es += [['rel', 0.3], ['rel', 1e-6]] + [['thr', q, sg] for q in _mat_thresholds(m, n, j, kind, scale, MS_FLOOR)[:3] for sg in (1, -1)]
                 for ei, e in enumerate(es):
+                    if not big and ei < 3 and (j + ei) % 3 == 0:
+                        continue
                     for cap in ((1e12, 2) if big else ((1e12, 2)[(j + ei) % 2],)):
                         for cid in MSV:
                             yield cid, dict(m=m, n=n, seed=j, kind=kind, scale=scale, e=e, cap=cap)
